@@ -157,6 +157,14 @@ fn group_columns(col_to_rows: &[Vec<usize>], n: usize) -> (Vec<usize>, usize) {
 ///
 /// This function evaluates the ODE function `n_groups` times instead of `n` times,
 /// where `n_groups` is typically much smaller than `n` for sparse Jacobians.
+/// Verification hook (only with `--cfg ivp_verif`): exposes the private column grouping to Python.
+#[cfg(ivp_verif)]
+#[pyfunction]
+pub fn _verif_group_columns(col_to_rows: Vec<Vec<usize>>) -> (Vec<usize>, usize) {
+    let n = col_to_rows.len();
+    group_columns(&col_to_rows, n)
+}
+
 pub fn sparse_jacobian_fd<F>(
     ode: F,
     x: Float,
